@@ -13,7 +13,7 @@ import (
 
 func init() {
 	Register(&Scenario{Prop: "C13", Name: "snapshot-roundtrip", Run: scenC13, SoftParks: true, Weight: 1,
-		Rule: "node T (+0-2 feeders) with one event-log or key-value database; log shape drawn per run: empty, chain, fork/multi-writer via partial replication, containing replicated entries, or with replication in progress (announcement delivered, block fetches withheld); payload sizes drawn from {0,1,100,4 KiB,40 KiB,48 KiB-64 KiB around the 16-bit boundary,128 KiB,300 KiB}; SaveSnapshot on T, then clean close, reopen on the same directory, LoadFromSnapshot on the fresh store object; oracle: SaveSnapshot returns an error, or the reloaded store (after re-queued fetches come to rest) has the same entry set, heads and visible state; neither call may panic; non-trivial = log has >=2 entries or >=1 replicated entry or a payload >=40 KiB or replication in progress"})
+		Rule: "node T (+0-2 feeders) with one event-log or key-value database; log shape drawn per run: empty, chain, fork/multi-writer via partial replication, containing replicated entries, or with replication in progress (announcement delivered, block fetches withheld); payload sizes drawn from {0,1,100,4 KiB,40 KiB,48 KiB-64 KiB around the 16-bit boundary,128 KiB,300 KiB}; SaveSnapshot on T (in a third of the runs while a second, small database of the same instance is being saved too), then clean close, reopen on the same directory, LoadFromSnapshot on the fresh store object; oracle: SaveSnapshot returns an error, or the reloaded store (after re-queued fetches come to rest) has the same entry set, heads and visible state; neither call may panic; non-trivial = log has >=2 entries or >=1 replicated entry or a payload >=40 KiB or replication in progress"})
 }
 
 var c13Sizes = []int{0, 1, 100, 4096, 40 * 1024, 48 * 1024, 49000, 49100, 49152, 50000, 64*1024 - 1, 64 * 1024, 64*1024 + 1, 128 * 1024, 300 * 1024}
@@ -122,11 +122,62 @@ func scenC13(k *K) {
 			return c09Write(ctx, T, tag)
 		})
 	}
-	sop := k.Do(0, "save-snapshot", 100, func() (interface{}, error) {
+	// in a third of the runs a second, small database of the same instance is saved at the same
+	// time: each snapshot must come back as its own database
+	var side iface.Store
+	var sideSet string
+	var sideOp *Op
+	if k.C.Chance(1, 3) {
+		cop := k.Do(0, "create-side-db", 50, func() (interface{}, error) {
+			ctx, cancel := OpCtx(time.Minute)
+			defer cancel()
+			return c.Peers[0].DB.Create(ctx, "side", "eventlog", nil)
+		})
+		if cop.Done && cop.Err == nil {
+			side = cop.Val.(iface.Store)
+			for j, m := 0, k.C.Range(1, 2); j < m; j++ {
+				tag := fmt.Sprintf("side-%d", j)
+				k.Do(0, "write-side", 20, func() (interface{}, error) {
+					ctx, cancel := OpCtx(time.Minute)
+					defer cancel()
+					return c09Write(ctx, side, tag)
+				})
+			}
+			sideSet = SetKey(LogHashSet(side))
+			k.W.Stat("two-snapshots-saved-at-once")
+			if k.C.Chance(1, 2) {
+				sideOp = k.Go(0, "save-snapshot-side", func() (interface{}, error) {
+					ctx, cancel := OpCtx(2 * time.Minute)
+					defer cancel()
+					return basestore.SaveSnapshot(ctx, side)
+				})
+			}
+		}
+	}
+	mainSave := k.Go(0, "save-snapshot", func() (interface{}, error) {
 		ctx, cancel := OpCtx(2 * time.Minute)
 		defer cancel()
 		return basestore.SaveSnapshot(ctx, T)
 	})
+	if side != nil && sideOp == nil {
+		sideOp = k.Go(0, "save-snapshot-side", func() (interface{}, error) {
+			ctx, cancel := OpCtx(2 * time.Minute)
+			defer cancel()
+			return basestore.SaveSnapshot(ctx, side)
+		})
+	}
+	k.Wait()
+	for j := 0; j < 100 && !(k.IsDone(mainSave) && (sideOp == nil || k.IsDone(sideOp))); j++ {
+		k.Step()
+	}
+	sop := mainSave
+	sideAddr := ""
+	if side != nil {
+		sideAddr = side.Address().String()
+		if !k.IsDone(sideOp) {
+			k.Failf("C13/save-hang", "SaveSnapshot of the second database did not return")
+		}
+	}
 	if cw != nil {
 		for j := 0; j < 50 && !k.IsDone(cw); j++ {
 			k.Step()
@@ -174,6 +225,31 @@ func scenC13(k *K) {
 	}
 	if lop.Err != nil {
 		k.Failf("C13/silent-bad-snapshot", "SaveSnapshot returned success for a %d-entry log (%d big payloads, replication in progress: %v) but LoadFromSnapshot on a fresh store failed: %v", entries, big, inProgress, lop.Err)
+	}
+	if side != nil && sideOp.Err == nil {
+		soop := k.Do(0, "reopen-side", 200, func() (interface{}, error) {
+			ctx, cancel := OpCtx(2 * time.Minute)
+			defer cancel()
+			return p.DB.Open(ctx, sideAddr, nil)
+		})
+		if !soop.Done || soop.Err != nil {
+			k.Failf("C13/reopen-failed", "second database: done=%v err=%v", soop.Done, soop.Err)
+		}
+		sst := soop.Val.(iface.Store)
+		slop := k.Do(0, "load-from-snapshot-side", 300, func() (interface{}, error) {
+			ctx, cancel := OpCtx(5 * time.Minute)
+			defer cancel()
+			return nil, sst.LoadFromSnapshot(ctx)
+		})
+		if !slop.Done {
+			k.Failf("C13/load-hang", "LoadFromSnapshot of the second database did not return")
+		}
+		if slop.Err != nil {
+			k.Failf("C13/silent-bad-snapshot", "two databases of one instance were saved at the same time, both saves returned success, but LoadFromSnapshot of the second one failed: %v", slop.Err)
+		}
+		if gs := SetKey(LogHashSet(sst)); gs != sideSet {
+			k.Failf("C13/entries-differ", "two databases of one instance were saved at the same time: the second one reloads with %d entries %v, it was saved with %v", len(LogHashSet(sst)), LogNames(sst), sideSet)
+		}
 	}
 	k.Settle(90*time.Second, 3000, c.AllIdle)
 	got := LogHashSet(st)
